@@ -18,6 +18,19 @@ Proof.
   destruct (lex (text_of (ctoks_doc v ts))) as [L es]. cbn [fst snd] in Herr, Hp. subst es. exact Hp.
 Qed.
 
+(* EVERY LAYOUT: a text that the pre-pass turns into the canonical tokens with other runs of blanks and tabs and other
+   line breaks (so: any indentation, blank lines, and whatever the pre-pass removes — comment lines, trailing comments,
+   trailing blanks) is accepted and gives exactly the model that was written *)
+Theorem every_layout_accepted v ts L d :
+  std_version v = true -> Forall type_lex_ok ts -> Forall type_ok ts -> distinct_decls (doc_file v ts) ->
+  Forall2 relay (kts (ctoks_doc v ts)) L -> prepass d = concat (map snd L) ->
+  exists exts md, dsl_to_model d = DOk (sem_file (doc_file v ts)) exts md.
+Proof.
+  intros Hv Hlex Hok Hd HL Hpre. destruct (every_layout_denotes v ts L Hv Hlex Hok Hd HL) as [Herr (exts & md & Hp)].
+  exists exts, md. unfold dsl_to_model. rewrite Hpre.
+  destruct (lex (concat (map snd L))) as [Lx es]. cbn [fst snd] in Herr, Hp. subst es. exact Hp.
+Qed.
+
 Theorem printed_model_reads_back m : model_ok m ->
   exists t exts md, fst (print_model false m) = Ok t /\ dsl_to_model t = DOk (reparsed m) exts md.
 Proof.
@@ -51,6 +64,17 @@ Proof.
   intros (_ & _ & _ & Htds). unfold reparsed, sem_file. cbn [doc_file f_header f_types f_conds header_modular header_module header_schema vtok ttext map].
   f_equal. unfold file_types. rewrite map_map. apply map_ext_in. intros td Hin. rewrite Forall_forall in Htds. apply sem_type_of. apply Htds. exact Hin.
 Qed.
+
+(* every layout of the document the printer writes for a covered model gives the model in canonical form *)
+Theorem every_layout_of_a_printed_model m L d : model_ok m ->
+  Forall2 relay (kts (ctoks_doc (m_schema m) (file_types m))) L -> prepass d = concat (map snd L) ->
+  exists exts md, dsl_to_model d = DOk {| m_schema := m_schema m; m_types := map canon_td (m_types m); m_conds := [] |} exts md.
+Proof.
+  intros Hm HL Hpre. pose proof Hm as (Hv & _ & _ & Htds). destruct (file_types_ok m Htds) as [Hlex Hok].
+  rewrite <- (reparsed_is_canonical m Hm).
+  exact (every_layout_accepted _ _ L d Hv Hlex Hok (file_types_distinct m Htds) HL Hpre).
+Qed.
+Print Assumptions every_layout_of_a_printed_model.
 
 (* C02 at document level: the DSL written for a covered model reads back as the model in canonical form *)
 Corollary document_round_trip m : model_ok m ->
